@@ -859,7 +859,14 @@ func valClasses(call, want, got string) (string, string) {
 		call = strings.TrimPrefix(call, p)
 	}
 
-	switch call = handleAsOpen(call); call {
+	call = handleAsOpen(call)
+
+	// (the listings of the compound call Open with a count, before and after Close)
+	if strings.HasPrefix(call, "Open.ReadDir") || strings.HasPrefix(call, "Open.Readdirnames") {
+		call = "Open.Readdirnames"
+	}
+
+	switch call {
 	case "Stat", "Lstat", "Open.Stat":
 		wn, wr, _ := strings.Cut(want, " ")
 		gn, gr, _ := strings.Cut(got, " ")
@@ -897,7 +904,7 @@ func handleAsOpen(call string) string {
 	switch {
 	case strings.HasPrefix(label, "Stat"):
 		return "Open.Stat"
-	case strings.HasPrefix(label, "ReadDir"), label == "Readdirnames":
+	case strings.HasPrefix(label, "ReadDir"), strings.HasPrefix(label, "Readdirnames"):
 		return "Open.Readdirnames"
 	case label == "Read", label == "ReadAt":
 		return "Open.Read"
@@ -1460,7 +1467,14 @@ func (s *sys) finish(o opT, pc, bcc string, want, got result, viols []bfs.Viol, 
 // operand and that operand is not the virtual root (whose name must not be
 // B's).
 func nameSpellingOnly(call, vcwd, arg, want, got string) bool {
-	switch call = handleAsOpen(call); call {
+	call = handleAsOpen(call)
+
+	// (the listings of the compound call Open with a count, before and after Close)
+	if strings.HasPrefix(call, "Open.ReadDir") || strings.HasPrefix(call, "Open.Readdirnames") {
+		call = "Open.Readdirnames"
+	}
+
+	switch call {
 	case "Stat", "Lstat", "Open.Stat":
 	default:
 		return false
